@@ -6,6 +6,7 @@ CONSTANTS
   MaxUid = 1
   MaxCode = 1
   NFlagSets = 2
+  SyncLit = FALSE
   Kinds = {"LOGIN", "SELECT", "CLOSE", "UNAUTH", "LOGOUT"}
   Greetings = {"OK", "PREAUTH"}
   SimDepth = 0
